@@ -188,8 +188,8 @@ func (g *genState) genValue(t *rapid.T, s int) tm.Val {
 		if g.noStale {
 			v = tm.Val{Kind: tm.KFloat, F: math.Float64bits(float64(rapid.IntRange(51, 60).Draw(t, "fsmall2")))}
 		}
-	case 7:
-		v = tm.Val{Kind: tm.KFloat, F: rapid.SampledFrom([]uint64{0, 0x8000000000000000, 0x7ff8000000000001, 0x7ff0000000000000, 0xfff8000000000001}).Draw(t, "fspecial")}
+	case 7, 8, 9:
+		v = tm.Val{Kind: tm.KFloat, F: rapid.SampledFrom([]uint64{0, 0x8000000000000000, 0x7ff8000000000001, 0x7ff0000000000000, 0xfff8000000000001, 0}).Draw(t, "fspecial")}
 	default:
 		v = tm.Val{Kind: tm.KFloat, F: math.Float64bits(float64(rapid.IntRange(0, 50).Draw(t, "fsmall")))}
 	}
@@ -321,6 +321,20 @@ func GenHistory(t *rapid.T, b Bias) History {
 				}
 			}
 			v := g.genValue(t, s)
+			if ser := g.m.Series[s]; ser.HasLast && ts == ser.LastT && !ser.LastStale && !g.tag {
+				// re-append at the newest timestamp: aim at the duplicate rule (bit-identical value is a
+				// no-op, anything else a duplicate error), including values that compare equal but differ
+				// in bits (+0/-0) and values that are bit-identical but compare unequal (NaN)
+				switch rapid.IntRange(0, 5).Draw(t, "dupclass") {
+				case 0, 1:
+					v = ser.LastV
+				case 2:
+					if ser.LastV.Kind == tm.KFloat && (ser.LastV.F == 0 || ser.LastV.F == 0x8000000000000000) {
+						v = tm.Val{Kind: tm.KFloat, F: ser.LastV.F ^ 0x8000000000000000}
+					}
+				}
+				g.lastV[s] = v
+			}
 			if ser := g.m.Series[s]; v.Kind == tm.KStale && (!ser.HasLast || ser.LastKind != tm.KFloat || len(g.apps) > 1) {
 				g.staleLock[[2]int{slot, s}] = true
 			}
